@@ -1,758 +1,22 @@
-//! Adapter for spec/CArc.tla: handle pool over real CArc / CArcSome values, operations executed on
-//! the OS thread the specification names, stored clone/drop functions interposed through the
-//! published C layout {instance, clone_fn, drop_fn}.
-
-use cglue::arc::{CArc, CArcSome};
-use cglue::trait_group::{c_void, Opaquable};
-use std::sync::atomic::{AtomicUsize, Ordering::SeqCst};
-use std::sync::mpsc::{channel, Receiver, Sender};
-use std::sync::{Arc, Mutex};
-use vkit::{json, ledger, Value};
-
-const MAXA: usize = 8;
-const Z: AtomicUsize = AtomicUsize::new(0);
-static VDROPS: [AtomicUsize; MAXA] = [Z; MAXA];
-static CLONE_CALLS: [AtomicUsize; MAXA] = [Z; MAXA];
-static DROP_CALLS: [AtomicUsize; MAXA] = [Z; MAXA];
-static ADDR: [AtomicUsize; MAXA] = [Z; MAXA];
-static ORIG_CLONE: AtomicUsize = AtomicUsize::new(0);
-static ORIG_DROP: AtomicUsize = AtomicUsize::new(0);
-static BAD: AtomicUsize = AtomicUsize::new(0);
-/// C16: when set, Clone and Drop are performed by the C driver through the published layout
-pub static C_MODE: AtomicUsize = AtomicUsize::new(0);
-
-unsafe fn c_clone_of<T>(h: &T) -> T {
-    let r = cview::cv_arc_clone(h as *const T as *const std::ffi::c_void);
-    std::mem::transmute_copy::<cview::RawArc, T>(&r)
-}
-unsafe fn c_release<T>(mut h: T) {
-    cview::cv_arc_release(&mut h as *mut T as *mut std::ffi::c_void);
-    std::mem::forget(h); // the C side has released it and cleared the fields
-}
-
-pub struct P {
-    alloc: usize,
-    magic: u32,
-}
-impl Drop for P {
-    fn drop(&mut self) {
-        if self.magic != 0xA11C {
-            BAD.fetch_add(1, SeqCst);
-        }
-        self.magic = 0xDEAD;
-        VDROPS[self.alloc].fetch_add(1, SeqCst);
-    }
-}
-
-#[repr(C)]
-struct RawArc {
-    instance: *const P,
-    clone_fn: Option<unsafe extern "C" fn(*const P) -> *const P>,
-    drop_fn: Option<unsafe extern "C" fn(*const P)>,
-}
-
-fn alloc_of(p: *const P) -> usize {
-    // the address of a destroyed value may have been handed out again: prefer the live allocation
-    for a in 1..MAXA {
-        if ADDR[a].load(SeqCst) == p as usize && p as usize != 0 && VDROPS[a].load(SeqCst) == 0 {
-            return a;
+//! Adapter for spec/CArc.tla.  The body (arc_body.rs) is compiled twice: over an ordinary payload and over an
+//! over-aligned one (`#[repr(align(64))]`: the reference counts of an `Arc<T>` sit `max(16, align_of::<T>())` bytes in
+//! front of the value, so code that reaches them through a type-erased pointer is right for one and wrong for the other).
+pub mod plain {
+    mod pdef {
+        pub struct P {
+            pub alloc: usize,
+            pub magic: u32,
         }
     }
-    for a in 1..MAXA {
-        if ADDR[a].load(SeqCst) == p as usize && p as usize != 0 {
-            return a;
-        }
-    }
-    0
+    include!("arc_body.rs");
 }
-
-unsafe extern "C" fn clone_tramp(p: *const P) -> *const P {
-    let a = alloc_of(p);
-    if a == 0 {
-        BAD.fetch_add(1, SeqCst);
-    }
-    CLONE_CALLS[a].fetch_add(1, SeqCst);
-    let f: unsafe extern "C" fn(*const P) -> *const P = std::mem::transmute(ORIG_CLONE.load(SeqCst));
-    f(p)
-}
-unsafe extern "C" fn drop_tramp(p: *const P) {
-    let a = alloc_of(p);
-    if a == 0 {
-        BAD.fetch_add(1, SeqCst);
-    }
-    DROP_CALLS[a].fetch_add(1, SeqCst);
-    let f: unsafe extern "C" fn(*const P) = std::mem::transmute(ORIG_DROP.load(SeqCst));
-    f(p)
-}
-
-fn interpose<T>(h: &mut T) {
-    assert_eq!(std::mem::size_of::<T>(), std::mem::size_of::<RawArc>());
-    let raw: &mut RawArc = unsafe { &mut *(h as *mut T as *mut RawArc) };
-    if raw.instance.is_null() {
-        return;
-    }
-    if let Some(c) = raw.clone_fn {
-        if c as usize != clone_tramp as usize {
-            ORIG_CLONE.store(c as usize, SeqCst);
-            raw.clone_fn = Some(clone_tramp);
+pub mod over {
+    mod pdef {
+        #[repr(align(64))]
+        pub struct P {
+            pub alloc: usize,
+            pub magic: u32,
         }
     }
-    if let Some(d) = raw.drop_fn {
-        if d as usize != drop_tramp as usize {
-            ORIG_DROP.store(d as usize, SeqCst);
-            raw.drop_fn = Some(drop_tramp);
-        }
-    }
-}
-
-fn raw_instance<T>(h: &T) -> *const P {
-    unsafe { (*(h as *const T as *const RawArc)).instance }
-}
-
-enum H {
-    CArc(CArc<P>),
-    Some(CArcSome<P>),
-    OCArc(CArc<c_void>),
-    OSome(CArcSome<c_void>),
-    Opt(Option<CArcSome<P>>),
-    Arc(Arc<P>),
-}
-unsafe impl Send for H {}
-
-impl H {
-    /// (kind, alloc) — the alloc is found by dereferencing typed handles and by the raw instance
-    /// pointer for opaque ones; a typed handle whose payload disagrees with its address is flagged.
-    fn view(&self) -> (&'static str, usize) {
-        fn chk(p: &P) -> usize {
-            if p.magic != 0xA11C || alloc_of(p as *const P) != p.alloc {
-                BAD.fetch_add(1, SeqCst);
-            }
-            p.alloc
-        }
-        match self {
-            H::CArc(c) => {
-                // the same target through AsRef and through the reference transpose From<&CArc> for Option<&CArcSome>
-                let a1 = c.as_ref().map(|p| chk(p)).unwrap_or(0);
-                let o: Option<&CArcSome<P>> = c.into();
-                let a2 = o.map(|s| chk(&**s)).unwrap_or(0);
-                if a1 != a2 {
-                    BAD.fetch_add(1, SeqCst);
-                }
-                ("CArc", a1)
-            }
-            H::Some(c) => ("Some", chk(&**c)),
-            H::OCArc(c) => ("OCArc", alloc_of(raw_instance(c))),
-            H::OSome(c) => ("OSome", alloc_of(raw_instance(c))),
-            H::Opt(o) => ("Opt", o.as_ref().map(|c| chk(&**c)).unwrap_or(0)),
-            H::Arc(a) => ("Arc", chk(&**a)),
-        }
-    }
-}
-
-struct Shared {
-    slots: Mutex<Vec<Option<H>>>,
-    keep: Mutex<Vec<Option<Arc<P>>>>,
-}
-
-fn new_payload(a: usize) -> Arc<P> {
-    let arc = Arc::new(P { alloc: a, magic: 0xA11C });
-    ADDR[a].store(Arc::as_ptr(&arc) as usize, SeqCst);
-    arc
-}
-
-/// Execute one slot operation on the calling thread.
-fn exec(sh: &Shared, e: &Value) -> Result<(), String> {
-    let op = e["op"].as_str().unwrap();
-    let s = e["s"].as_u64().unwrap_or(1) as usize - 1;
-    let take = |i: usize| sh.slots.lock().unwrap()[i].take();
-    let put = |i: usize, h: H| {
-        sh.slots.lock().unwrap()[i] = Some(h);
-    };
-    match op {
-        "FromValue" => {
-            let a = e["a"].as_u64().unwrap() as usize;
-            let h = ledger::track(|| {
-                // From<T>: the library allocates the Arc itself; learn its address afterwards
-                if e["k"] == "CArc" {
-                    let mut c = CArc::from(P { alloc: a, magic: 0xA11C });
-                    ADDR[a].store(raw_instance(&c) as usize, SeqCst);
-                    interpose(&mut c);
-                    H::CArc(c)
-                } else {
-                    let mut c = CArcSome::from(P { alloc: a, magic: 0xA11C });
-                    ADDR[a].store(raw_instance(&c) as usize, SeqCst);
-                    interpose(&mut c);
-                    H::Some(c)
-                }
-            });
-            put(s, h);
-        }
-        "FromArc" => {
-            let a = e["a"].as_u64().unwrap() as usize;
-            let arc = sh.keep.lock().unwrap()[a].as_ref().unwrap().clone();
-            let variant = e["via"].as_str().unwrap_or("arc");
-            let h = ledger::track(|| {
-                if e["k"] == "CArc" {
-                    let mut c = if variant == "opt" || a % 2 == 0 {
-                        CArc::<P>::from(Some(arc))
-                    } else {
-                        CArc::<P>::from(arc)
-                    };
-                    interpose(&mut c);
-                    H::CArc(c)
-                } else {
-                    let mut c = CArcSome::from(arc);
-                    interpose(&mut c);
-                    H::Some(c)
-                }
-            });
-            put(s, h);
-        }
-        "MakeEmpty" => {
-            let c = if s % 2 == 0 { CArc::<P>::default() } else { CArc::<P>::from(None::<Arc<P>>) };
-            put(s, H::CArc(c));
-        }
-        "Clone" => {
-            let d = e["d"].as_u64().unwrap() as usize - 1;
-            let h = take(s).ok_or("clone of free slot")?;
-            let cm = C_MODE.load(SeqCst) != 0;
-            let mut h = h;
-            let via_mut = !cm && (s + d) % 2 == 1;
-            let c = ledger::track(|| unsafe {
-                match &mut h {
-                    // alternately through the mutable reference transpose From<&mut CArc> for Option<&mut CArcSome>
-                    H::CArc(x) if via_mut => {
-                        let o: Option<&mut CArcSome<P>> = x.into();
-                        match o {
-                            Some(some) => H::CArc(some.clone().transpose()),
-                            None => H::CArc(CArc::default()),
-                        }
-                    }
-                    H::CArc(x) => H::CArc(if cm { c_clone_of(x) } else { x.clone() }),
-                    H::Some(x) => H::Some(if cm { c_clone_of(x) } else { x.clone() }),
-                    H::OCArc(x) => H::OCArc(if cm { c_clone_of(x) } else { x.clone() }),
-                    H::OSome(x) => H::OSome(if cm { c_clone_of(x) } else { x.clone() }),
-                    _ => unreachable!(),
-                }
-            });
-            put(s, h);
-            put(d, c);
-        }
-        "Take" => {
-            let d = e["d"].as_u64().unwrap() as usize - 1;
-            let mut h = take(s).ok_or("take of free slot")?;
-            let t = match &mut h {
-                H::CArc(x) => H::CArc(x.take()),
-                H::OCArc(x) => H::OCArc(x.take()),
-                _ => unreachable!(),
-            };
-            put(s, h);
-            put(d, t);
-        }
-        "Convert" => {
-            let to = e["to"].as_str().unwrap();
-            let h = take(s).ok_or("convert of free slot")?;
-            let n = ledger::track(|| match (h, to) {
-                (H::CArc(x), "Opt") => H::Opt(x.transpose()),
-                (H::CArc(x), "OCArc") => H::OCArc(x.into_opaque()),
-                (H::Some(x), "CArc") => H::CArc(x.transpose()),
-                (H::Some(x), "OSome") => H::OSome(x.into_opaque()),
-                (H::Opt(x), "CArc") => H::CArc(CArc::from(x)),
-                _ => unreachable!(),
-            });
-            put(s, n);
-        }
-        "Unwrap" => {
-            let h = take(s).ok_or("unwrap of free slot")?;
-            match h {
-                H::Opt(Some(x)) => put(s, H::Some(x)),
-                _ => unreachable!(),
-            }
-        }
-        "IntoArc" => {
-            let h = take(s).ok_or("into_arc of free slot")?;
-            match h {
-                H::Some(x) => put(s, H::Arc(unsafe { x.into_arc() })),
-                _ => unreachable!(),
-            }
-        }
-        "Drop" => {
-            let h = take(s).ok_or("drop of free slot")?;
-            if C_MODE.load(SeqCst) != 0 {
-                ledger::track(|| unsafe {
-                    match h {
-                        H::CArc(x) => c_release(x),
-                        H::Some(x) => c_release(x),
-                        H::OCArc(x) => c_release(x),
-                        H::OSome(x) => c_release(x),
-                        other => drop(other),
-                    }
-                });
-            } else {
-                ledger::track(|| drop(h));
-            }
-        }
-        "Give" => {}
-        _ => return Err(format!("unknown op {}", op)),
-    }
-    Ok(())
-}
-
-struct Worker {
-    tx: Sender<Option<Value>>,
-    rx: Receiver<Result<(), String>>,
-    handle: Option<std::thread::JoinHandle<()>>,
-}
-
-pub struct World {
-    sh: Arc<Shared>,
-    workers: Vec<Worker>,
-    nslots: usize,
-    nalloc: usize,
-}
-
-impl World {
-    pub fn new(nslots: usize, nalloc: usize, nthreads: usize) -> Self {
-        for a in 0..MAXA {
-            VDROPS[a].store(0, SeqCst);
-            CLONE_CALLS[a].store(0, SeqCst);
-            DROP_CALLS[a].store(0, SeqCst);
-            ADDR[a].store(0, SeqCst);
-        }
-        let sh = Arc::new(Shared {
-            slots: Mutex::new((0..nslots).map(|_| None).collect()),
-            keep: Mutex::new((0..=nalloc).map(|_| None).collect()),
-        });
-        let workers = (0..nthreads)
-            .map(|_| {
-                let (tx, wrx) = channel::<Option<Value>>();
-                let (wtx, rx) = channel();
-                let sh2 = sh.clone();
-                let handle = std::thread::spawn(move || {
-                    while let Ok(Some(e)) = wrx.recv() {
-                        let r = vkit::catch(|| exec(&sh2, &e)).unwrap_or_else(|m| Err(format!("panic: {}", m)));
-                        if wtx.send(r).is_err() {
-                            break;
-                        }
-                    }
-                });
-                Worker { tx, rx, handle: Some(handle) }
-            })
-            .collect();
-        World { sh, workers, nslots, nalloc }
-    }
-
-    pub fn apply(&mut self, e: &Value) -> Result<(), String> {
-        match e["op"].as_str().unwrap() {
-            "EnvNewArc" => {
-                let a = e["a"].as_u64().unwrap() as usize;
-                let arc = ledger::track(|| new_payload(a));
-                self.sh.keep.lock().unwrap()[a] = Some(arc);
-                Ok(())
-            }
-            "EnvDropArc" => {
-                let a = e["a"].as_u64().unwrap() as usize;
-                let arc = self.sh.keep.lock().unwrap()[a].take();
-                ledger::track(|| drop(arc));
-                Ok(())
-            }
-            _ => {
-                let t = e["t"].as_u64().unwrap() as usize - 1;
-                self.workers[t].tx.send(Some(e.clone())).unwrap();
-                self.workers[t].rx.recv().unwrap_or_else(|_| Err("worker died".into()))
-            }
-        }
-    }
-
-    pub fn proj(&self) -> Value {
-        let slots = self.sh.slots.lock().unwrap();
-        let keep = self.sh.keep.lock().unwrap();
-        let sl: Vec<Value> = slots
-            .iter()
-            .map(|h| match h {
-                None => json!(["free", 0]),
-                Some(h) => {
-                    let (k, a) = h.view();
-                    json!([k, a])
-                }
-            })
-            .collect();
-        let strong: Vec<usize> = (1..=self.nalloc)
-            .map(|a| keep[a].as_ref().map(Arc::strong_count).unwrap_or(0))
-            .collect();
-        let vd: Vec<usize> = (1..=self.nalloc).map(|a| VDROPS[a].load(SeqCst)).collect();
-        let calls: Vec<Value> = (1..=self.nalloc)
-            .map(|a| json!([CLONE_CALLS[a].load(SeqCst), DROP_CALLS[a].load(SeqCst)]))
-            .collect();
-        json!({"slots": sl, "strong": strong, "vdrops": vd, "calls": calls})
-    }
-
-    pub fn slot_views(&self) -> Vec<Option<(&'static str, usize)>> {
-        self.sh.slots.lock().unwrap().iter().map(|h| h.as_ref().map(|h| h.view())).collect()
-    }
-    pub fn kept(&self) -> Vec<bool> {
-        self.sh.keep.lock().unwrap().iter().map(|k| k.is_some()).collect()
-    }
-
-    /// Drop everything (each remaining handle on thread 1), check the quiescent clauses.
-    pub fn teardown(mut self, base: ledger::Snap) -> Option<String> {
-        for s in 0..self.nslots {
-            if self.sh.slots.lock().unwrap()[s].is_some() {
-                let _ = self.apply(&json!({"op":"Drop","t":1,"s":s+1}));
-            }
-        }
-        for a in 1..=self.nalloc {
-            let k = self.sh.keep.lock().unwrap()[a].take();
-            ledger::track(|| drop(k));
-        }
-        for w in self.workers.iter_mut() {
-            let _ = w.tx.send(None);
-            if let Some(h) = w.handle.take() {
-                let _ = h.join();
-            }
-        }
-        for a in 1..=self.nalloc {
-            let made = ADDR[a].load(SeqCst) != 0;
-            let d = VDROPS[a].load(SeqCst);
-            if made && d != 1 {
-                return Some(format!("allocation {} value dropped {} times at quiescence", a, d));
-            }
-        }
-        let s = ledger::snap();
-        if s.live != base.live {
-            return Some(format!("leak: {} tracked allocations live at quiescence (base {})", s.live, base.live));
-        }
-        if s.anomalies != base.anomalies {
-            return Some(format!("allocator anomalies: {:?}", ledger::anomalies_since(base.anomalies)));
-        }
-        if BAD.load(SeqCst) > 0 {
-            return Some("a handle dereferenced to a dead or foreign value, or a stored function saw an unknown instance".into());
-        }
-        None
-    }
-}
-
-fn replay(lines: &[String], nslots: usize, nalloc: usize, nthreads: usize) -> (usize, Vec<Value>) {
-    let mut failures = vec![];
-    let mut steps = 0;
-    for (bi, line) in lines.iter().enumerate() {
-        vkit::mark(bi);
-        let beh: Value = serde_json::from_str(line).expect("behaviour json");
-        let base = ledger::snap();
-        BAD.store(0, SeqCst);
-        let mut w = World::new(nslots, nalloc, nthreads);
-        let mut failed = None;
-        for (si, st) in beh.as_array().unwrap().iter().enumerate() {
-            steps += 1;
-            if let Err(m) = w.apply(&st["a"]) {
-                failed = Some((si, format!("operation failed: {}", m)));
-                break;
-            }
-            let got = w.proj();
-            if got != st["exp"] {
-                failed = Some((si, format!("projection differs: got {} expected {}", got, st["exp"])));
-                break;
-            }
-            if BAD.load(SeqCst) > 0 {
-                failed = Some((si, "handle dereferences to a dead/foreign value".into()));
-                break;
-            }
-        }
-        let td = w.teardown(base);
-        if failed.is_none() {
-            if let Some(m) = td {
-                failed = Some((beh.as_array().unwrap().len(), m));
-            }
-        }
-        if let Some((si, msg)) = failed {
-            failures.push(json!({"behaviour": bi, "step": si, "msg": msg, "beh": beh}));
-            if failures.len() >= 20 {
-                break;
-            }
-        }
-    }
-    (steps, failures)
-}
-
-fn trace(out: &str, seed: u64, events: usize, nslots: usize, nalloc: usize, nthreads: usize) {
-    let mut log = vkit::NdJson::create(out);
-    let mut rng = vkit::rng::Rng::new(seed);
-    let mut emitted = 0;
-    while emitted < events {
-        let base = ledger::snap();
-        BAD.store(0, SeqCst);
-        let mut w = World::new(nslots, nalloc, nthreads);
-        let mut own = vec![1usize; nslots];
-        let mut made = vec![false; nalloc + 1];
-        log.emit(&json!({"op":"reset"}));
-        emitted += 1;
-        let run = 30 + rng.below(120);
-        for _ in 0..run {
-            let views = w.slot_views();
-            let kept = w.kept();
-            let free: Vec<usize> = (0..nslots).filter(|&i| views[i].is_none()).collect();
-            let used: Vec<usize> = (0..nslots).filter(|&i| views[i].is_some()).collect();
-            let unmade: Vec<usize> = (1..=nalloc).filter(|&a| !made[a]).collect();
-            let keptv: Vec<usize> = (1..=nalloc).filter(|&a| kept[a]).collect();
-            let t = 1 + rng.below(nthreads);
-            let mut cand: Vec<Value> = vec![];
-            if let Some(&d) = free.first() {
-                if let Some(&a) = unmade.first() {
-                    cand.push(json!({"op":"FromValue","t":t,"s":d+1,"a":a,"k": if rng.chance(1,2) {"CArc"} else {"Some"}}));
-                    cand.push(json!({"op":"EnvNewArc","a":a}));
-                }
-                if !keptv.is_empty() {
-                    let a = *rng.pick(&keptv);
-                    cand.push(json!({"op":"FromArc","t":t,"s":d+1,"a":a,"k": if rng.chance(1,2) {"CArc"} else {"Some"}}));
-                }
-                if rng.chance(1, 4) {
-                    cand.push(json!({"op":"MakeEmpty","t":t,"s":d+1}));
-                }
-            }
-            if !keptv.is_empty() && rng.chance(1, 6) {
-                cand.push(json!({"op":"EnvDropArc","a":*rng.pick(&keptv)}));
-            }
-            if !used.is_empty() {
-                for _ in 0..4 {
-                    let s = *rng.pick(&used);
-                    let (k, a) = views[s].unwrap();
-                    let t = own[s];
-                    let mut c: Vec<Value> = vec![json!({"op":"Drop","t":t,"s":s+1})];
-                    if nthreads > 1 {
-                        let mut u = 1 + rng.below(nthreads);
-                        if u == t {
-                            u = u % nthreads + 1;
-                        }
-                        c.push(json!({"op":"Give","t":t,"s":s+1,"u":u}));
-                    }
-                    if let Some(&d) = free.first() {
-                        if matches!(k, "CArc" | "Some" | "OCArc" | "OSome") {
-                            c.push(json!({"op":"Clone","t":t,"s":s+1,"d":d+1}));
-                            c.push(json!({"op":"Clone","t":t,"s":s+1,"d":d+1}));
-                        }
-                        if matches!(k, "CArc" | "OCArc") {
-                            c.push(json!({"op":"Take","t":t,"s":s+1,"d":d+1}));
-                        }
-                    }
-                    match k {
-                        "CArc" => {
-                            c.push(json!({"op":"Convert","t":t,"s":s+1,"to":"Opt"}));
-                            c.push(json!({"op":"Convert","t":t,"s":s+1,"to":"OCArc"}));
-                        }
-                        "Some" => {
-                            c.push(json!({"op":"Convert","t":t,"s":s+1,"to":"CArc"}));
-                            c.push(json!({"op":"Convert","t":t,"s":s+1,"to":"OSome"}));
-                            c.push(json!({"op":"IntoArc","t":t,"s":s+1}));
-                        }
-                        "Opt" => {
-                            c.push(json!({"op":"Convert","t":t,"s":s+1,"to":"CArc"}));
-                            if a != 0 {
-                                c.push(json!({"op":"Unwrap","t":t,"s":s+1}));
-                            }
-                        }
-                        _ => {}
-                    }
-                    cand.push(rng.pick(&c).clone());
-                }
-            }
-            if cand.is_empty() {
-                break;
-            }
-            let e = rng.pick(&cand).clone();
-            if let Some(a) = e["a"].as_u64() {
-                if e["op"] == "FromValue" || e["op"] == "EnvNewArc" {
-                    made[a as usize] = true;
-                }
-            }
-            if e["op"] == "Give" {
-                own[e["s"].as_u64().unwrap() as usize - 1] = e["u"].as_u64().unwrap() as usize;
-            }
-            for key in ["s", "d"].iter() {
-                if matches!(e["op"].as_str().unwrap(), "FromValue" | "FromArc" | "MakeEmpty") && *key == "s"
-                    || matches!(e["op"].as_str().unwrap(), "Clone" | "Take") && *key == "d"
-                {
-                    own[e[*key].as_u64().unwrap() as usize - 1] = e["t"].as_u64().unwrap() as usize;
-                }
-            }
-            let r = w.apply(&e);
-            let mut ev = e.clone();
-            let o = ev.as_object_mut().unwrap();
-            o.insert("proj".into(), w.proj());
-            o.insert("ok".into(), json!(r.is_ok() && BAD.load(SeqCst) == 0));
-            log.emit(&ev);
-            emitted += 1;
-        }
-        let td = w.teardown(base);
-        log.emit(&json!({"op":"quiescent","ok": td.is_none(), "msg": td.unwrap_or_default()}));
-        emitted += 1;
-    }
-    log.flush();
-    println!("{}", json!({"summary":"trace","events":emitted}));
-}
-
-/// Free-running concurrent mode (C10: "the same operations issued concurrently from several threads").
-/// Every thread owns `per` slots and performs random operations on its own slots only, all threads at
-/// once and without any scheduling by the driver: the reference counts of the shared allocations are the
-/// contended state.  A completed operation is stamped with a global sequence number; operations of
-/// different threads touch disjoint slots, so any merge that respects each thread's own order is a
-/// linearisation the specification must accept, and the counts are compared at the `sync` event after
-/// all threads have joined.
-fn conc(out: &str, seed: u64, rounds: usize, nthreads: usize, per: usize, nalloc: usize, ops: usize) {
-    let mut log = vkit::NdJson::create(out);
-    let mut rng = vkit::rng::Rng::new(seed);
-    let nslots = nthreads * per;
-    let mut emitted = 0;
-    for _round in 0..rounds {
-        let base = ledger::snap();
-        BAD.store(0, SeqCst);
-        let mut w = World::new(nslots, nalloc, nthreads);
-        log.emit(&json!({"op":"reset"}));
-        emitted += 1;
-        let mut setup: Vec<Value> = (1..=nalloc).map(|a| json!({"op":"EnvNewArc","a":a})).collect();
-        for t in 1..=nthreads {
-            let a = 1 + (t + rng.below(nalloc)) % nalloc;
-            setup.push(json!({"op":"FromArc","t":t,"s":(t - 1) * per + 1,"a":a,"k": if rng.chance(1,2) {"CArc"} else {"Some"}}));
-        }
-        for e in setup {
-            let r = w.apply(&e);
-            let mut ev = e.clone();
-            let o = ev.as_object_mut().unwrap();
-            o.insert("proj".into(), w.proj());
-            o.insert("ok".into(), json!(r.is_ok() && BAD.load(SeqCst) == 0));
-            log.emit(&ev);
-            emitted += 1;
-        }
-        let gseq = Arc::new(AtomicUsize::new(0));
-        let barrier = Arc::new(std::sync::Barrier::new(nthreads));
-        let mut joins = vec![];
-        for t in 1..=nthreads {
-            let sh = w.sh.clone();
-            let gseq = gseq.clone();
-            let barrier = barrier.clone();
-            let tseed = seed.wrapping_mul(1000003).wrapping_add((_round * 97 + t) as u64);
-            joins.push(std::thread::spawn(move || {
-                let mut rng = vkit::rng::Rng::new(tseed);
-                let mine: Vec<usize> = ((t - 1) * per..t * per).collect();
-                let mut evs: Vec<(usize, Value)> = vec![];
-                barrier.wait();
-                for _ in 0..ops {
-                    let views: Vec<Option<(&'static str, usize)>> = {
-                        let sl = sh.slots.lock().unwrap();
-                        mine.iter().map(|&i| sl[i].as_ref().map(|h| h.view())).collect()
-                    };
-                    let free: Vec<usize> = (0..per).filter(|&i| views[i].is_none()).collect();
-                    let used: Vec<usize> = (0..per).filter(|&i| views[i].is_some()).collect();
-                    let mut c: Vec<Value> = vec![];
-                    if let Some(&d) = free.first() {
-                        let a = 1 + rng.below(nalloc);
-                        c.push(json!({"op":"FromArc","t":t,"s":mine[d]+1,"a":a,"k": if rng.chance(1,2) {"CArc"} else {"Some"}}));
-                        if rng.chance(1, 5) {
-                            c.push(json!({"op":"MakeEmpty","t":t,"s":mine[d]+1}));
-                        }
-                    }
-                    for &u in &used {
-                        let (k, a) = views[u].unwrap();
-                        let s = mine[u] + 1;
-                        c.push(json!({"op":"Drop","t":t,"s":s}));
-                        if let Some(&d) = free.first() {
-                            if matches!(k, "CArc" | "Some" | "OCArc" | "OSome") {
-                                c.push(json!({"op":"Clone","t":t,"s":s,"d":mine[d]+1}));
-                                c.push(json!({"op":"Clone","t":t,"s":s,"d":mine[d]+1}));
-                            }
-                            if matches!(k, "CArc" | "OCArc") {
-                                c.push(json!({"op":"Take","t":t,"s":s,"d":mine[d]+1}));
-                            }
-                        }
-                        match k {
-                            "CArc" => {
-                                c.push(json!({"op":"Convert","t":t,"s":s,"to":"Opt"}));
-                                c.push(json!({"op":"Convert","t":t,"s":s,"to":"OCArc"}));
-                            }
-                            "Some" => {
-                                c.push(json!({"op":"Convert","t":t,"s":s,"to":"CArc"}));
-                                c.push(json!({"op":"Convert","t":t,"s":s,"to":"OSome"}));
-                                c.push(json!({"op":"IntoArc","t":t,"s":s}));
-                            }
-                            "Opt" => {
-                                c.push(json!({"op":"Convert","t":t,"s":s,"to":"CArc"}));
-                                if a != 0 {
-                                    c.push(json!({"op":"Unwrap","t":t,"s":s}));
-                                }
-                            }
-                            _ => {}
-                        }
-                    }
-                    if c.is_empty() {
-                        continue;
-                    }
-                    let e = rng.pick(&c).clone();
-                    let r = vkit::catch(|| exec(&sh, &e)).unwrap_or_else(|m| Err(format!("panic: {}", m)));
-                    let lv: Vec<Value> = {
-                        let sl = sh.slots.lock().unwrap();
-                        mine.iter().map(|&i| match sl[i].as_ref().map(|h| h.view()) {
-                            None => json!([i + 1, "free", 0]),
-                            Some((k, a)) => json!([i + 1, k, a]),
-                        }).collect()
-                    };
-                    let seq = gseq.fetch_add(1, SeqCst);
-                    let mut ev = e.clone();
-                    let o = ev.as_object_mut().unwrap();
-                    o.insert("conc".into(), json!(true));
-                    o.insert("seq".into(), json!(seq));
-                    o.insert("lv".into(), json!(lv));
-                    o.insert("ok".into(), json!(r.is_ok()));
-                    evs.push((seq, ev));
-                }
-                evs
-            }));
-        }
-        let mut all: Vec<(usize, Value)> = vec![];
-        for j in joins {
-            all.extend(j.join().expect("worker thread"));
-        }
-        all.sort_by_key(|x| x.0);
-        for (_, ev) in all {
-            log.emit(&ev);
-            emitted += 1;
-        }
-        log.emit(&json!({"op":"sync","proj": w.proj(), "ok": BAD.load(SeqCst) == 0}));
-        emitted += 1;
-        let td = w.teardown(base);
-        log.emit(&json!({"op":"quiescent","ok": td.is_none(), "msg": td.unwrap_or_default()}));
-        emitted += 1;
-    }
-    log.flush();
-    println!("{}", json!({"summary":"conc","events":emitted}));
-}
-
-pub fn main(args: &[String]) {
-    let mode = args[0].as_str();
-    let path = args.get(1).cloned().unwrap_or_default();
-    let geti = |f: &str, d: usize| vkit::arg_after(args, f).map(|s| s.parse().unwrap()).unwrap_or(d);
-    let (nslots, nalloc, nthreads) = (geti("--slots", 3), geti("--allocs", 2), geti("--threads", 2));
-    if args.iter().any(|a| a == "--c") {
-        C_MODE.store(1, SeqCst);
-    }
-    match mode {
-        "replay" => {
-            let lines = vkit::read_lines(&path);
-            let (steps, failures) = replay(&lines, nslots, nalloc, nthreads);
-            if let Some(f) = vkit::arg_after(args, "--fail-out") {
-                if let Some(first) = failures.first() {
-                    std::fs::write(&f, serde_json::to_string(first).unwrap()).unwrap();
-                }
-            }
-            vkit::summary("arc-replay", lines.len(), steps, &failures, json!({}));
-        }
-        "conc" => {
-            conc(&path, geti("--seed", 1) as u64, geti("--rounds", 20), geti("--threads", 3), geti("--per", 2), nalloc, geti("--ops", 200));
-        }
-        "trace" => {
-            trace(&path, geti("--seed", 1) as u64, geti("--events", 1000), nslots, nalloc, nthreads);
-        }
-        _ => {
-            eprintln!("TOOL-ERROR mode");
-            std::process::exit(2)
-        }
-    }
+    include!("arc_body.rs");
 }
